@@ -388,11 +388,58 @@ func (s *Sim) DeadMany(u int, names []enc.Name) int {
 		if gone(ns.Name) {
 			continue
 		}
-		ns.RecvPing(ns.VerifFaceId(), false) // same face: only refreshes lastSeen
+		s.Heartbeat(u, ns) // the live neighbors keep sending their periodic Sync Interests
 	}
 	nu.R.VerifCheckDeadNeighbors()
 	s.Settle()
 	return k
+}
+
+// Heartbeat: the periodic Sync Interest of a neighbor whose advertisement has NOT changed (it repeats
+// the sequence number u already remembers) reaches the REAL advertSyncOnInterest of router u on the
+// face the neighbor is known on. It must only refresh the neighbor's liveness.
+func (s *Sim) Heartbeat(u int, ns *table.NeighborState) {
+	s.SyncInterest(u, ns.Name, ns.VerifFaceId(), true, ns.AdvertSeq)
+}
+
+// Tick lets more than a dead interval of virtual time pass on stable links: the neighbors over the
+// links that are up keep sending heartbeats with unchanged sequence numbers (real
+// advertSyncOnInterest), nothing is heard over the links that are down, then the deadcheck ticker
+// fires at every router (real checkDeadNeighbors).
+func (s *Sim) Tick(up func(u, w int) bool) {
+	half := s.Nodes[0].Cfg.RouterDeadInterval()/2 + 500*time.Millisecond
+	for round := 0; round < 2; round++ {
+		time.Sleep(half)
+		for u, nu := range s.Nodes {
+			for _, ns := range nu.R.VerifNeighbors().GetAll() {
+				if w := s.IdxOfName(ns.Name); w >= 0 && up(u, w) {
+					s.Heartbeat(u, ns)
+				}
+			}
+		}
+	}
+	for _, nu := range s.Nodes {
+		nu.R.VerifCheckDeadNeighbors()
+	}
+	s.Settle()
+}
+
+// Restart: router i crashes and comes back — a fresh Router from the REAL NewRouter (boot sequence
+// numbers from the clock, empty tables) with the same name; its neighbors keep what they remember.
+func (s *Sim) Restart(i int) {
+	old := s.Nodes[i]
+	s.Settle()
+	old.R.VerifNfdc().Stop()
+	eng := &Engine{}
+	r, err := dv.NewRouter(old.Cfg, eng)
+	if err != nil {
+		panic("harness: NewRouter: " + err.Error())
+	}
+	old.Eng, old.R = eng, r
+	go r.VerifNfdc().Start()
+	r.VerifRib().Set(old.Name, old.Name, 0)
+	s.Settle()
+	eng.TakeCmds()
 }
 
 // DumpRib renders the observable routing state of router u in canonical sorted form:
